@@ -18,6 +18,9 @@ import (
 
 	"go.opentelemetry.io/collector/pdata/pcommon"
 
+	"github.com/docker/cli/cli/command"
+	"github.com/docker/docker/client"
+
 	"github.com/tdakkota/docker-logql/internal/dockerlog"
 	"github.com/tdakkota/docker-logql/internal/logql/logqlengine"
 	"github.com/tdakkota/docker-logql/internal/lokiapi"
@@ -87,6 +90,14 @@ func TestVerifProbe(t *testing.T) {
 	tr := &Trace{w: bw}
 	scn := 0
 	exec := func(raw json.RawMessage, id int) {
+		var k struct {
+			Kind string `json:"kind"`
+		}
+		_ = json.Unmarshal(raw, &k)
+		if k.Kind == "cmd" {
+			probeCmd(tr, id, raw)
+			return
+		}
 		var in cliIn
 		if err := json.Unmarshal(raw, &in); err != nil {
 			t.Fatal(err)
@@ -428,4 +439,78 @@ func genRender(r *rand.Rand) cliIn {
 		in.Streams = []renderStream{}
 	}
 	return in
+}
+
+// ---- System (spec/System.tla): the plugin's own command over a fake Docker CLI
+
+type cmdCase struct {
+	Ctrs  []FakeCtr `json:"ctrs"`
+	Start []int     `json:"start"`
+	End   []int     `json:"end"`
+	Limit int       `json:"limit"`
+	Opts  []bool    `json:"opts"`
+	Q     []int     `json:"q"`
+}
+
+// fakeCli is a docker CLI of which only Client() is ever asked.
+type fakeCli struct {
+	command.Cli
+	c client.APIClient
+}
+
+func (f fakeCli) Client() client.APIClient { return f.c }
+
+func probeCmd(tr *Trace, scn int, raw json.RawMessage) {
+	tr.Scenario(scn, raw)
+	var in cmdCase
+	if err := json.Unmarshal(raw, &in); err != nil {
+		tr.Ev(scn, "Args", F{"args_txt": "bad case: " + err.Error()})
+		return
+	}
+	// the window ends spelled as unix seconds or RFC3339, by turns
+	spellT := func(p []int, k int) string {
+		if (scn+k)%2 == 0 {
+			return strconv.Itoa(p[0])
+		}
+		return time.Unix(int64(p[0]), 0).UTC().Format(time.RFC3339)
+	}
+	args := []string{"query", "--start", spellT(in.Start, 0), "--end=" + spellT(in.End, 1), "--limit", strconv.Itoa(in.Limit),
+		fmt.Sprintf("--timestamp=%v", in.Opts[0]), fmt.Sprintf("--container=%v", in.Opts[1]), fmt.Sprintf("--color=%v", in.Opts[2]), S(in.Q)}
+	if in.Limit < 0 && scn%3 == 0 {
+		args = append(args[:4:4], args[6:]...) // the default limit is "no limit"
+	}
+	tr.Ev(scn, "Args", F{"args_txt": fmt.Sprint(args)})
+	texts := []F{}
+	seen := map[[2]int]bool{}
+	for _, c := range in.Ctrs {
+		for _, f := range c.Frames {
+			k := [2]int{f.TS[0], f.TS[1]}
+			if !seen[k] {
+				seen[k] = true
+				texts = append(texts, F{"ts": []int{f.TS[0], f.TS[1]}, "txt": B(time.Unix(int64(f.TS[0]), int64(f.TS[1])).Format(time.RFC3339Nano))})
+			}
+		}
+	}
+	tr.Ev(scn, "TsTexts", F{"texts": texts})
+	func() {
+		defer func() {
+			if x := recover(); x != nil {
+				tr.Ev(scn, "Panic", F{"detail_txt": fmt.Sprint(x)})
+			}
+		}()
+		fake := newFakeDocker(nil, scn, in.Ctrs)
+		root := rootCmd(fakeCli{c: fake})
+		var out, errb bytes.Buffer
+		root.SetOut(&out)
+		root.SetErr(&errb)
+		root.SetArgs(args)
+		root.SilenceUsage = true
+		err := root.ExecuteContext(context.Background())
+		d := ""
+		if err != nil {
+			d = err.Error()
+		}
+		tr.Ev(scn, "Exit", F{"ok": err == nil, "detail_txt": d})
+		tr.Ev(scn, "Rendered", F{"ok": err == nil, "out": B(out.String())})
+	}()
 }
